@@ -46,3 +46,5 @@ def run(ctx):
     lib_module.module_every_path(ctx, P, classes=("Tree",), floor=10)
     lib_py.facade_names(ctx, py, P, classes=(("trees", "Tree"),), floor=40)
     lib_mem.c_lints(ctx, ctx.program(), scopes.lib_scope("C01"))
+    from . import lib_kind5
+    lib_kind5.tree_reset_unconditional(ctx, ctx.program())
